@@ -68,6 +68,7 @@ def handle : List String → String
       let r := predict op va vb
       s!"ok lit=?;{r} typed={sel ta op};{r} union={sel (unionWith ta) op};{r} call=?;{r} ucall=?;{r}"
     | _, _ => "bad-operand"
+  | "grid" :: _ => "ok ?"
   | _ => "bad-op"
 
 end Driver.Dom.Paths
